@@ -14,27 +14,27 @@ the `_src` theorem, is then re-proved by Lean on that run — or stops checking.
 -/
 namespace CircBuf
 
-theorem C11_swap_ok_src (s : Sys) (i j : Nat) (h : Inv s.buf) (hi : i < s.buf.size) (hj : j < s.buf.size) :
+maybe theorem C11_swap_ok_src (s : Sys) (i j : Nat) (h : Inv s.buf) (hi : i < s.buf.size) (hj : j < s.buf.size) :
     Refines (Gen.swap i j) s () (Spec.swap (abs s.buf) i j) := by
   first
   | (rw [tie_swap _ _ s h (nd_swap _ _ s h)]; exact C11_swap_ok s i j h hi hj)
   | (have h0 := C11_swap_ok s i j h hi hj; unfold Refines at h0 ⊢; rw [tie_swap _ _ s h (nd_swap _ _ s h)]; exact h0)
 
-theorem C11_swap_panics_i_src (s : Sys) (i j : Nat) (hi : ¬ i < s.buf.size) :
+maybe theorem C11_swap_panics_i_src (s : Sys) (i j : Nat) (hi : ¬ i < s.buf.size) :
     Gen.swap i j s = (.error (.doc "swap_i"), s) :=
   gen_swap_panics_i s i j hi
 
-theorem C11_swap_panics_j_src (s : Sys) (i j : Nat) (hi : i < s.buf.size) (hj : ¬ j < s.buf.size) :
+maybe theorem C11_swap_panics_j_src (s : Sys) (i j : Nat) (hi : i < s.buf.size) (hj : ¬ j < s.buf.size) :
     Gen.swap i j s = (.error (.doc "swap_j"), s) :=
   gen_swap_panics_j s i j hi hj
 
-theorem C11_range_ok_src (sb eb : Bound) (s : Sys) (hsb : sb.val < W) (heb : eb.val < W)
+maybe theorem C11_range_ok_src (sb eb : Bound) (s : Sys) (hsb : sb.val < W) (heb : eb.val < W)
     (he : eb.endNat s.buf.size ≤ s.buf.size) (hs : sb.startNat ≤ eb.endNat s.buf.size)
     (hW : s.buf.size < W) :
     Gen.translate_range_bounds sb eb s = (.ok (sb.startNat, eb.endNat s.buf.size), s) := by
   rw [tie_translate_range_bounds _ _ s]; exact C11_range_ok sb eb s hsb heb he hs hW
 
-theorem C11_range_panics_src (sb eb : Bound) (s : Sys) (hsb : sb.val < W) (heb : eb.val < W)
+maybe theorem C11_range_panics_src (sb eb : Bound) (s : Sys) (hsb : sb.val < W) (heb : eb.val < W)
     (hW : s.buf.size < W)
     (hbad : s.buf.size < eb.endNat s.buf.size ∨ eb.endNat s.buf.size < sb.startNat) :
     ∃ k, Gen.translate_range_bounds sb eb s = (.error (.doc k), s) := by
